@@ -18,8 +18,8 @@ import WacModel.Decode
                 named interface J that exports a type `m` (or `n`), and X's item `n` *is* that
                 type (same tree, same resources);
   * `specUsesComplete`: whenever the type referenced by a type export `n` of instance X was
-                created by an export of a different instance (directly or through alias ids),
-                X records a `uses` entry for `n`.
+                created by an export of a different, *named* instance (one that has an interface
+                id; directly or through alias ids), X records a `uses` entry for `n`.
 -/
 namespace Wac.Spec.Decode
 open Wac Wac.Decode
@@ -302,7 +302,12 @@ def specUsesComplete (w : WTypes) (a : Types) : Option String :=
         let ch := chain w (w.defs.length + w.res.length + 1) referenced
         -- aliasable kinds only: function/instance/component type ids are shared, not aliased
         let aliasable := match referenced with | .res _ | .defined _ => true | _ => false
-        if aliasable && created.any (fun (j, _, c) => j != i && ch.contains c) then
+        -- only an interface that has an id can be `use`d (an instance under a plain name or an
+        -- instance type owns nothing)
+        let named (j : Nat) : Bool := match a.interfaces[j]? with
+          | some jt => jt.id.isSome
+          | none => false
+        if aliasable && created.any (fun (j, _, c) => j != i && named j && ch.contains c) then
           match a.interfaces[i]? with
           | none => some s!"interface {i} missing"
           | some itf =>
